@@ -1,3 +1,4 @@
+from contextlib import contextmanager
 from dataclasses import dataclass
 from dataclasses import field as field_
 from dataclasses import replace
@@ -220,6 +221,9 @@ Method = TypeVar("Method", bound=Callable[..., TypeFactory])
 def cache_type(method: Method) -> Method:
     @wraps(method)
     def wrapper(self: "SchemaBuilder", *args, **kwargs):
+        # Resolvers of an object type built for a flattened field embed the access
+        # to this field, so this type cannot be shared with other contexts.
+        context = getattr(self, "get_flattened", None)
         factory = method(self, *args, **kwargs)
 
         @wraps(factory.factory)
@@ -232,13 +236,14 @@ def cache_type(method: Method) -> Method:
             # Method is in cache key because scalar types will have the same method,
             # and then be shared by both visitors, while input/output types will have
             # their own cache entry.
-            if (name, method, description) in self._cache_by_name:
-                tp, cached_args = self._cache_by_name[(name, method, description)]
+            key = (name, method, description, context)
+            if key in self._cache_by_name:
+                tp, cached_args = self._cache_by_name[key]
                 if cached_args == (args, kwargs):
                     return tp
             tp = graphql.GraphQLNonNull(factory.factory(name, description))
             # Don't put args in cache in order to avoid hashable issue
-            self._cache_by_name[(name, method, description)] = (tp, (args, kwargs))
+            self._cache_by_name[key] = (tp, (args, kwargs))
             return tp
 
         return replace(factory, factory=name_cache)
@@ -268,7 +273,7 @@ class SchemaBuilder(
         self.id_type = id_type
         self.is_id = is_id or (lambda t: False)
         self._cache_by_name: Dict[
-            Tuple[str, Callable, Optional[str]],
+            Tuple[str, Callable, Optional[str], Optional[Callable]],
             Tuple[graphql.GraphQLNonNull, Tuple[tuple, dict]],
         ] = {}
 
@@ -616,6 +621,16 @@ class OutputSchemaBuilder(
 
             return cast(Func, resolve_wrapper)
 
+    @contextmanager
+    def _not_flattened(self):
+        # Flattening only concerns the fields of the flattened object itself, not the
+        # types they refer to (recursive ones included, hence the fresh cache)
+        with context_setter(self):
+            if self.get_flattened is not None:
+                self.get_flattened = None
+                self._cache = {}
+            yield
+
     def _field(self, tp: AnyType, field: ObjectField) -> Lazy[graphql.GraphQLField]:
         field_name = field.name
         partial_serialize = self._field_serialization_method(field).serialize
@@ -624,7 +639,8 @@ class OutputSchemaBuilder(
         def resolve(obj, _):
             return partial_serialize(getattr(obj, field_name))
 
-        factory = self.visit_with_conv(field.type, field.serialization)
+        with self._not_flattened():
+            factory = self.visit_with_conv(field.type, field.serialization)
         field_schema = get_field_schema(tp, field)
         return lambda: graphql.GraphQLField(
             factory.type,
@@ -698,7 +714,10 @@ class OutputSchemaBuilder(
                     )
 
                 args[self.aliaser(param_field.alias)] = arg_thunk
-        factory = self.visit_with_conv(field.types["return"], field.resolver.conversion)
+        with self._not_flattened():
+            factory = self.visit_with_conv(
+                field.types["return"], field.resolver.conversion
+            )
         field_schema = get_method_schema(tp, field.resolver)
         return lambda: graphql.GraphQLField(
             factory.type,
@@ -745,11 +764,17 @@ class OutputSchemaBuilder(
                 )
                 visited_fields.append(normal_field)
             elif field.flattened:
-                flattened_factory = self._visit_flattened(field)
-                flattened_factories.append(flattened_factory)
                 visited_fields.append(
-                    FlattenedField(field.name, field.ordering, flattened_factory)
+                    FlattenedField(
+                        field.name, field.ordering, self._visit_flattened(field)
+                    )
                 )
+                # (inherited) interfaces must not be taken from the type built for
+                # the flattened field, as it is specific to this field
+                with self._not_flattened():
+                    flattened_factories.append(
+                        self.visit_with_conv(field.type, field.serialization)
+                    )
         resolvers = list(resolvers)
         for resolver, types in get_resolvers(tp):
             resolver_field = ResolverField(
@@ -766,7 +791,8 @@ class OutputSchemaBuilder(
             visited_fields.append(normal_field)
 
         interface_thunk = None
-        interfaces = list(map(self.visit, get_interfaces(cls)))
+        with self._not_flattened():
+            interfaces = list(map(self.visit, get_interfaces(cls)))
         if interfaces or flattened_factories:
 
             def interface_thunk() -> Collection[graphql.GraphQLInterfaceType]:  # noqa
